@@ -38,9 +38,10 @@ def _p(bounded, level, explanation, frames=(), extra=()):
 
 _ALL = {
     "C01": _p(
-        ["bounded.run_C01"],
+        ["bounded.run_C01", "bounded.run_history"],
         "other",
         "Proof core: the representation invariant is carried by per-operation contracts on the real code (sign-table operations keep table values +-1 and touch only stored sectors; blockwise ops keep key sets inside the operands' key sets; label-count parity of resolve_combined_oddpos; canonical charges from the symmetry contracts), which closes over arbitrary programs by induction on program length. Bounded: an independent Valid audit after every step of generated programs of public operations.",
+        frames=['immutable', 'key_covers'],
     ),
     "C02": _p(
         ["bounded.run_C02"],
@@ -59,14 +60,16 @@ _ALL = {
         extra=["A-grass: uniqueness of the normal form of a word under R1/R2 (mathematics)"],
     ),
     "C05": _p(
-        ["bounded.run_C05"],
+        ["bounded.run_C05", "bounded.run_history"],
         "other",
         "Proof core: accum_for_split returns exactly the consecutive prefix-sum intervals (unbounded length), from which insert-, concat- and unfuse layouts are derived by the same table. Bounded: element-relocation oracle, exact zeros, bit-for-bit round trips, insert==concat, cache on/off.",
+        frames=['immutable', 'key_covers'],
     ),
     "C06": _p(
-        ["bounded.run_C06"],
+        ["bounded.run_C06", "bounded.run_history"],
         "other",
         "Bounded tier decides (modes agree in rank, index structure incl. sub-index info and values; contraction of fused operands equals contraction); proof core shared with C05/C02 (layout tables, key algebra).",
+        frames=['immutable', 'key_covers'],
     ),
     "C07": _p(
         ["bounded.run_C07"],
@@ -85,9 +88,10 @@ _ALL = {
         frames=['typestate'],
     ),
     "C10": _p(
-        ["bounded.run_C10"],
+        ["bounded.run_C10", "bounded.run_history"],
         "other",
         "Proof core: conjugation of label words (reversal + dag) is an involution that preserves the normal form and reverses the order; FermionicOperator.dag laws. Bounded: norms of arrays and locally conjugated networks, involutions, dagger == conj then reversal for both flag values.",
+        frames=['immutable', 'key_covers'],
     ),
     "C11": _p(
         ["bounded.run_C11"],
@@ -112,7 +116,7 @@ _ALL = {
         frames=['ownership', 'immutable'],
     ),
     "C15": _p(
-        ["bounded.run_C15"],
+        ["bounded.run_C15", "bounded.run_history"],
         "other",
         "Proof core: default_tensordot_mode restores the previous mode on normal and exceptional exit; cache key coverage obligations. Bounded: cold/warm/evicting histories over near-identical arrays. The thread clause is outside this technique family: only a bounded stress run.",
         extra=["schedules (threads) are NOT covered by any contract: bounded stress run only"],
